@@ -47,6 +47,10 @@ type schedScenario struct {
 	Finally func(x *schedRun)
 	// TimeFirst > 0 allows up to that many "let time pass although someone is parked" choices
 	TimeFirst int
+	// TimeFirstStep is how much time such a choice lets pass (default: Quantum)
+	TimeFirstStep time.Duration
+	// OnRelease is called by the scheduler right before a parked step is released
+	OnRelease func(x *schedRun, thread, label string)
 }
 
 type parkedG struct {
@@ -238,7 +242,19 @@ func runSchedule(t *testing.T, b *world.Backend, sc *schedScenario, prefix []int
 			}
 			if choice == len(P) { // let time pass first
 				timeFirstUsed++
-				x.advance(quantum)
+				step := quantum
+				if sc.TimeFirstStep > 0 {
+					step = sc.TimeFirstStep
+				}
+				x.Event("time passes (%v) while %d steps are pending", step, len(P))
+				for step > 0 {
+					q := quantum
+					if q > step {
+						q = step
+					}
+					x.advance(q)
+					step -= q
+				}
 				continue
 			}
 			g := P[choice]
@@ -251,6 +267,9 @@ func runSchedule(t *testing.T, b *world.Backend, sc *schedScenario, prefix []int
 			}
 			x.mu.Unlock()
 			x.last = g.thread
+			if sc.OnRelease != nil {
+				sc.OnRelease(x, g.thread, g.label)
+			}
 			close(g.ch)
 		}
 		if sc.Finally != nil {
